@@ -18,6 +18,7 @@ import (
 	"strings"
 	"sync"
 
+	"github.com/cosmos/cosmos-proto/internal/verifh/vreg"
 	"github.com/cosmos/cosmos-proto/internal/verifh/vschema"
 	"github.com/cosmos/cosmos-proto/internal/verifh/vval"
 	"google.golang.org/protobuf/proto"
@@ -112,7 +113,8 @@ func runReflect(cfg *Cfg) {
 	out.res.Rule = fmt.Sprintf("for every registered generated message type: %d random operation histories of length 1..%d "+
 		"(thorough: plus exhaustive histories up to length 3 over a small op alphabet on small types), each from a junk-free random initial value "+
 		"(depth<=2, nil-vs-empty containers, unknown tails; no bad UTF-8, no float32 sNaN). Ops are type-directed by the schema and by the current "+
-		"abstract state: all read ops (has get which range getu valid llen lget mlen mhas mget mrange size enc) and write ops (set clear mut newf setu "+
+		"abstract state: all read ops (has get getter which range getu valid llen lget mlen mhas mget mrange size enc; getter = the generated plain-Go Get<Field>() "+
+		"called through Go reflect, compared with Get(fd) of the same message and of the references: C19) and write ops (set clear mut newf setu "+
 		"lset lapp lappm ltrunc mset mclr mmut reset), addressed to the root or through in/at/mv paths (depth<=%d); about 3%% deliberately invalid "+
 		"(out-of-range indexes, mut on scalars, lappm/mmut on scalar containers, bad paths), <1%% flagged misuse (Set of the read-only empty view). "+
 		"Every history runs on fast reflection, dynamicpb and slowProtoReflect; after every op outputs, struct view, getters, oneof exclusivity and Range "+
@@ -169,8 +171,17 @@ func reflectTarget(b *tbuf, t *Target, seed, idx uint64, rc *reflCfg) {
 		b.Count("targets_without_slow_reflection")
 	}
 	en := enumNums(t)
-	g := &opGen{r: r, s: t.S, en: en, long: rc.thorough}
 	gt := newGetterTable(t)
+	g := &opGen{r: r, s: t.S, en: en, long: rc.thorough, getters: gt.names}
+	for _, ns := range gt.names {
+		for _, n := range ns {
+			if n == "" {
+				b.Count("getter_methods_not_found")
+			} else {
+				b.Count("getter_methods_found")
+			}
+		}
+	}
 	var reached []*vval.Val // struct views reached by histories (input of the library pass)
 	for c := 0; c < rc.histories; c++ {
 		init := genInit(r, t, en)
@@ -194,7 +205,7 @@ func reflectTarget(b *tbuf, t *Target, seed, idx uint64, rc *reflCfg) {
 	if rc.thorough {
 		exhaustive(b, t, gt, modelOK)
 	}
-	nilPass(b, t)
+	nilPass(b, t, gt)
 	libPass(b, t, r, en, reached, rc.libCases)
 }
 
@@ -297,6 +308,7 @@ func (h *histRun) run(init *vval.Val, n int, next func(state *vval.Val, k int) *
 		return nil
 	}
 	ma := newMach("fast", S, msgA.ProtoReflect())
+	ma.getters = h.gt.names // `getter j` calls the generated Get<Field>() here and renders Get(fd) on the references
 	mb := newMach("dyn", S, dyn)
 	var mc *rmach
 	if t.Info.Slow != nil {
@@ -309,6 +321,7 @@ func (h *histRun) run(init *vval.Val, n int, next func(state *vval.Val, k int) *
 	}
 	var outsA, outsB []string
 	misuse := false
+	hasGetter := false
 	wrote := false
 	prevCanon := vval.Canon(S, 0, t.B.FromMessage(0, msgA)).String()
 	for k := 0; k < n; k++ {
@@ -339,7 +352,23 @@ func (h *histRun) run(init *vval.Val, n int, next func(state *vval.Val, k int) *
 		stop := false
 		// ---- outputs
 		unpop := false
-		if op.name == "get" {
+		if op.name == "getter" {
+			hasGetter = true
+			// C19: the plain Go accessor against reflection. oa = what Get<Field>() returned on the generated struct,
+			// ob / oc = Get(fd) of dynamicpb / slow reflection rendered in getter tokens (compared below like every
+			// other op), og = Get(fd) of the fast reflection itself on the same message.
+			og, _ := ma.exec(&rop{path: op.path, name: "get", j: op.j})
+			if cur, _ := navigate(S, state, op.path); cur == nil && oa != "absent" && oa != "panic" {
+				b.Count("getter_on_nil_or_unpopulated_message")
+			} else if cur != nil && len(op.path) > 0 {
+				b.Count("getter_on_nested_message")
+			}
+			if oa != getterTokens(og) {
+				b.Violate("C19", "getter-vs-get", fmt.Sprintf("op %d `%s`: the generated getter returned %s (%s) but Get(fd) of the same message gives %s", k, clip(op.String(), 200), oa, pa, og), h.replay(init))
+				stop = true
+			}
+		}
+		if op.name == "get" || op.name == "getter" {
 			cur, mi := navigate(S, state, op.path)
 			f := S.Msgs[mi].Fields[op.j]
 			if f.IsMsg && (f.Shape == vschema.Singular || f.Shape == vschema.Oneof) {
@@ -367,6 +396,9 @@ func (h *histRun) run(init *vval.Val, n int, next func(state *vval.Val, k int) *
 				if op.isWrite() {
 					stop = true
 				}
+			} else if !same(oa, ob) && op.name == "getter" {
+				b.Violate("C19", "getter-output", fmt.Sprintf("op %d `%s`: the generated getter returned %s (%s), Get(fd) of dynamicpb gives %s, of slow reflection %s", k, clip(op.String(), 200), oa, pa, ob, oc), h.replay(init))
+				stop = true
 			} else if !same(oa, ob) {
 				b.Violate("C08", "reflect-output:"+op.name, fmt.Sprintf("op %d `%s`: fast reflection returned %s (%s), dynamicpb %s, slow reflection %s", k, clip(op.String(), 200), oa, pa, ob, oc), h.replay(init))
 				stop = true
@@ -462,6 +494,10 @@ func (h *histRun) run(init *vval.Val, n int, next func(state *vval.Val, k int) *
 		h.expect = strings.Join(outsA, " ; ") + " ; final " + vval.Canon(S, 0, viewA).String()
 		if h.emit {
 			pa, pb := "C08,C09,C10", "B"
+			if hasGetter {
+				pa = "C08,C09,C10,C19" // the history contains `getter` ops: correspondence of the plain-Go accessors
+				b.Count("histories_with_getter")
+			}
 			if misuse {
 				pa, pb = "MISUSE", "MISUSE"
 				b.Count("histories_with_misuse")
@@ -569,11 +605,23 @@ type getterTable struct {
 	t       *Target
 	methods []int // per schema field of the root: method index of Get<Name> on *T, -1 if absent
 	found   int
+	// names: per message index of the schema, per field index: "Get<GoName>" of the generated accessor (for a
+	// oneof member the member getter), "" when the Go type or the method is not known. Used by the `getter` op.
+	names [][]string
 }
 
-func newGetterTable(t *Target) *getterTable {
-	gt := &getterTable{t: t}
-	pt := reflect.TypeOf(t.Info.Proto)
+// getterNames finds the generated accessors of one message type by Go reflection only: the Go name of a field
+// is the name of the struct field carrying its `protobuf:"…,<num>,…"` tag, for a oneof member the name of the
+// single field of its wrapper struct.
+func getterNames(full string, fields []vschema.Field) (names []string, idx []int) {
+	names, idx = make([]string, len(fields)), make([]int, len(fields))
+	for j := range idx {
+		idx[j] = -1
+	}
+	pt := typeOfFull(full)
+	if pt == nil || pt.Kind() != reflect.Ptr || pt.Elem().Kind() != reflect.Struct {
+		return
+	}
 	st := pt.Elem()
 	nameByNum := map[int]string{}
 	for i := 0; i < st.NumField(); i++ {
@@ -587,21 +635,36 @@ func newGetterTable(t *Target) *getterTable {
 			}
 		}
 	}
-	for num, w := range t.Info.Wrappers {
-		wt := reflect.TypeOf(w)
-		if wt.Kind() == reflect.Ptr && wt.Elem().NumField() > 0 {
-			nameByNum[num] = wt.Elem().Field(0).Name
-		}
-	}
-	for _, f := range t.S.Msgs[0].Fields {
-		idx := -1
-		if name, ok := nameByNum[f.Num]; ok {
-			if m, ok := pt.MethodByName("Get" + name); ok {
-				idx = m.Index
-				gt.found++
+	for j, f := range fields {
+		if f.Shape == vschema.Oneof {
+			if wt := vreg.WrapperOf(full, f.Num); wt != nil && wt.Kind() == reflect.Ptr && wt.Elem().NumField() > 0 {
+				nameByNum[f.Num] = wt.Elem().Field(0).Name
+			} else {
+				delete(nameByNum, f.Num)
 			}
 		}
-		gt.methods = append(gt.methods, idx)
+		if name, ok := nameByNum[f.Num]; ok {
+			if m, ok := pt.MethodByName("Get" + name); ok && m.Type.NumIn() == 1 && m.Type.NumOut() == 1 {
+				names[j], idx[j] = "Get"+name, m.Index
+			}
+		}
+	}
+	return
+}
+
+func newGetterTable(t *Target) *getterTable {
+	gt := &getterTable{t: t}
+	for mi := range t.S.Msgs {
+		names, idx := getterNames(t.S.Msgs[mi].FullName, t.S.Msgs[mi].Fields)
+		gt.names = append(gt.names, names)
+		if mi == 0 {
+			gt.methods = idx
+			for _, i := range idx {
+				if i >= 0 {
+					gt.found++
+				}
+			}
+		}
 	}
 	return gt
 }
@@ -716,6 +779,7 @@ func alphabet(t *Target) []*rop {
 		f := &sm.Fields[j]
 		add(&rop{name: "has", j: j})
 		add(&rop{name: "get", j: j})
+		add(&rop{name: "getter", j: j})
 		add(&rop{name: "clear", j: j})
 		switch f.Shape {
 		case vschema.Repeated:
@@ -760,7 +824,7 @@ func exhaustive(b *tbuf, t *Target, gt *getterTable, modelOK bool) {
 	}
 	ab := alphabet(t)
 	n := len(ab)
-	if n*n*n > 120000 {
+	if n*n*n > 160000 { // 120000 before the `getter` ops joined the alphabet
 		return
 	}
 	b.Count("exhaustive_targets")
